@@ -2,6 +2,7 @@
 
 from bounded import props as B
 from bounded import props2 as B2
+from bounded import props3 as B3
 
 PROPS = {}
 
@@ -65,5 +66,19 @@ prop("C15", "other",
      "ObjectMeta.__new__ merge/clone/frame contract where in reach; bounded: parent/child/grandchild families against flat twins in all orders of define/use/reconfigure.",
      bounded=[B2.c15_inheritance])
 
+prop("C20", "other",
+     "parse_element's refusal clause under contract where in reach; bounded: every schema position x carrier x unsupported keyword through parse(), "
+     "literal positions, cyclic documents (in-memory and through real files via the CLI entry point).",
+     bounded=[B3.c20_unsupported, B3.c20_cli_cycles])
+
+prop("C11", "other",
+     "orderer/get_children/_get_path contracts where in reach; bounded: all listed dependency graphs x keyword positions, and call histories.",
+     bounded=[B3.c11_order])
+
+prop("C12", "other",
+     "_parse_attribute_name/_title_format/dedupe contracts where in reach; bounded: property names over a class alphabet (every length <= 2 string), sibling pairs, titles; "
+     "each generated module is executed.",
+     bounded=[B3.c12_names, B3.c12_siblings, B3.c12_titles])
+
 NOT_YET = {}
-FIX_COMMITS = ["240c9e2", "ba1006d", "dab453b", "5a0ad53", "5fe75a7", "1c7b42d", "0339f31", "a857da5", "9e872e5", "85d1ad8", "757eca2", "d1e41a0"]
+FIX_COMMITS = ["240c9e2", "ba1006d", "dab453b", "5a0ad53", "5fe75a7", "1c7b42d", "0339f31", "a857da5", "9e872e5", "85d1ad8", "757eca2", "d1e41a0", "8960798", "e3fd882"]
